@@ -23,12 +23,15 @@ size_t rtosc_avmessage(char                  *buffer,
     STACKALLOC(rtosc_arg_t, vals, val_max);
     STACKALLOC(char, argstr,val_max+1);
 
-    int i;
+    int i, nvals = 0;
     for(i = 0; i < val_max; ++i)
     {
         rtosc_arg_val_t av_buffer;
         const rtosc_arg_val_t* cur = rtosc_arg_val_itr_get(&itr, &av_buffer);
-        vals[i] = cur->val;
+        //rtosc_amessage() consumes values only for types which carry one
+        if(cur->type != 'T' && cur->type != 'F' &&
+           cur->type != 'N' && cur->type != 'I')
+            vals[nvals++] = cur->val;
         argstr[i] = cur->type;
         rtosc_arg_val_itr_next(&itr);
     }
